@@ -126,7 +126,7 @@ panic = "unwind"
                 arms.append(f"        {i} => s{i}(a),")
             src = ("#![allow(dead_code, unused_imports, unused_variables, unused_mut, non_camel_case_types, non_snake_case, unused_parens, clippy::all)]\n"
                    "#[macro_use]\nextern crate uom;\n"
-                   "#[path = \"../common.rs\"]\nmod common;\nuse common::*;\n\n" + "\n".join(fns) +
+                   "#[path = \"../common.rs\"]\n#[macro_use]\nmod common;\nuse common::*;\n\n" + "\n".join(fns) +
                    "\nfn dispatch(slot: usize, a: &[&str]) -> String {\n    match slot {\n" + "\n".join(arms) +
                    "\n        _ => \"NOSLOT\".to_string(),\n    }\n}\n\nfn main() { run_main(dispatch); }\n")
             C.write_if_changed(os.path.join(self.dir, "src", "bin", f"s{k}.rs"), src)
